@@ -1,5 +1,4 @@
-import CaresLemmas.TextCsv
-import CaresLemmas.TextPton
+import CaresLemmas.TextEntry
 /-!
 # C16 — configuration is saved, duplicated and re-applied losslessly; user settings win
 
@@ -128,6 +127,31 @@ theorem dup_equiv (e : SysEnv) (o : Options) (m : Mask) (ch : Chan) (hwf : o.WF)
     (h : initOptions e (some o) m = .ok ch)
     (hok : ch.optmask.servers = true → ∀ s ∈ ch.servers, entryOk e.ifs s = true) :
     dup ch e = .ok ch := dup_init e o m ch hwf h hok
+
+/-- a server as the legacy options / an IPv4 `nameserver` line produce it: IPv4 address, equal ports,
+    no interface -/
+def IsPlainV4 (s : Server) : Prop :=
+  ∃ a b c d p, a < 256 ∧ b < 256 ∧ c < 256 ∧ d < 256 ∧ p < 65536 ∧
+    s = { addr := .v4 [a, b, c, d], udp := p, tcp := p, iface := [], scope := 0 }
+
+/-- the per-entry hypothesis of `csv_fixpoint` / `dup_equiv` is a theorem for plain IPv4 servers:
+    `a.b.c.d:port` is rejected by the URI parser, accepted by `parse_nameserver`, and gives the server back -/
+theorem entry_roundtrip_v4 (ifs : Ifaces) (s : Server) (h : IsPlainV4 s) : entryOk ifs s = true := by
+  obtain ⟨a, b, c, d, p, ha, hb, hc, hd, hp, rfl⟩ := h
+  exact entryOk_v4_plain ifs a b c d p ha hb hc hd hp
+
+/-- `csv_fixpoint` without the per-entry hypothesis for IPv4 server lists with equal ports -/
+theorem csv_fixpoint_v4 (c : Chan) (ifs : Ifaces)
+    (hinv : ServersInv (hasFlag c.flags flagPrimary) c.servers) (hv4 : ∀ s ∈ c.servers, IsPlainV4 s) :
+    ∃ csv, getServersCsv c = some csv ∧ (setServersCsv c ifs csv).1 = .success ∧
+      getServersCsv (setServersCsv c ifs csv).2 = some csv ∧ (setServersCsv c ifs csv).2.servers = c.servers :=
+  csv_fixpoint c ifs hinv (fun s hs => entry_roundtrip_v4 ifs s (hv4 s hs))
+
+/-- `dup_equiv` without the per-entry hypothesis when the application's servers are plain IPv4 -/
+theorem dup_equiv_v4 (e : SysEnv) (o : Options) (m : Mask) (ch : Chan) (hwf : o.WF)
+    (h : initOptions e (some o) m = .ok ch) (hv4 : ch.optmask.servers = true → ∀ s ∈ ch.servers, IsPlainV4 s) :
+    dup ch e = .ok ch :=
+  dup_equiv e o m ch hwf h (fun hb s hs => entry_roundtrip_v4 e.ifs s (hv4 hb s hs))
 
 /-- **ntop_pton** (IPv4): parsing the text form of an address gives the address back -/
 theorem ntop_pton_v4 (a b c d : Nat) (ha : a < 256) (hb : b < 256) (hc : c < 256) (hd : d < 256) :
